@@ -44,7 +44,7 @@ def parse(path):
             st[k] = v
     return st
 
-def run(pid, scen, seed, tier, stats, failing, broken, sh, CACHE, TARGET, infra):
+def run(pid, scen, seed, tier, stats, failing, broken, sh, CACHE, TARGET, infra, diff_with_model):
     name, quick_n, thorough_n = scen
     n = thorough_n if tier == 'thorough' else quick_n
     rundir = os.path.join(CACHE, 'run')
@@ -65,3 +65,6 @@ def run(pid, scen, seed, tier, stats, failing, broken, sh, CACHE, TARGET, infra)
                                 replay_cmd=f'VERIF_SIM_RAWSEED=1 VERIF_SIM_VERBOSE=2 {os.path.join(TARGET, "debug", "sim")} {name} {sm.group(1) if sm else seed} 1 /verif/.cache/run/replay'))
         else:
             st.setdefault('other_property_failures', []).append(f[:200])
+    div, n = diff_with_model(prefix, f'sim:{name}')
+    st['model_transitions_validated'] = n
+    return div
